@@ -164,6 +164,10 @@ class OrientedLine:
   def __validate_line(self):
     if isinstance(self.line, gfapy.Line):
       string = self.line.name
+      if gfapy.is_placeholder(string):
+        raise gfapy.FormatError(
+          "The line {} has no identifier: it cannot be referred to"
+          .format(self.line))
     elif isinstance(self.line, str):
       string = self.line
     else:
